@@ -78,8 +78,16 @@ def q_case(c):
     if f == 'repro':
         return 'case_repro %d tournament_size [%s] %s %d %s %s' % (
             c['nt'], ';'.join(q_shape(s) for s in c['shapes']), q_zs(c['fits']), c['k'], q_nats(c['picks']), e)
+    if f == 'tourn':
+        return 'case_tourn tournament_size %s %d %s %s' % (q_zs(c['fits']), c['k'], q_nats(c['picks']), e)
     if f == 'gp':
         n = c['n_trees']
+        if 'funs0' in c:
+            return 'case_run2 %s %s (mkGP tournament_size (%d,%d) %d %d %d) %d %d %s %s %s %s' % (
+                q_env(c['nt'], c['funs0'], c['max'] - c['min']),
+                q_env(c['nt'], c['funs'], c['max'] - c['min']), c['ratio'][0], c['ratio'][1],
+                int(n * c['p_rep']), int(n * c['p_cross']), int(n * c['p_mut']), n, c['iters'],
+                q_nats(c['picks']), q_fracs(c['ds']), q_zs(c['fits']), e)
         return 'case_run %s (mkGP tournament_size (%d,%d) %d %d %d) %d %d %s %s %s %s' % (
             q_env(c['nt'], c['funs'], c['max'] - c['min']), c['ratio'][0], c['ratio'][1],
             int(n * c['p_rep']), int(n * c['p_cross']), int(n * c['p_mut']), n, c['iters'],
@@ -137,6 +145,7 @@ def strip(c):
 
 FAM_THEOREM = {
     'find': 'find_node_slot (C09) / the find_node model',
+    'tourn': 'C09_reproduction_spec (the tournament model)',
     'deepcopy': 'C08_deepcopy_wf',
     'grow': 'C08_grow_wf',
     'mutate': 'C08_mutate_wf / C09_mutate_spec',
@@ -218,13 +227,16 @@ def coverage(ctx, cases, res, nchunks):
     ctx.cov['rule'] = ('find/deepcopy/mutate/cross: every parent of depth <= 2 over unary and binary nodes (13 shapes, 169 ordered '
                        'pairs), every point the contract allows plus the first out-of-range one; grow: every outcome for a '
                        'unary+binary function set with depth budget <= 2 plus seeded random sets; reproduction: fitness vectors '
-                       'over {-2,0,1,3} of length 2-4, every count, fixed and seeded tournament scripts; seeded scripted GP runs '
+                       'over {-2,0,1,3} of length 2-4 plus near-tie float vectors (distinct values within 1e-5 relative / 1e-8 absolute, +-0.0), '
+                       'every count, fixed and seeded tournament scripts; tournament_selection alone; histories: `functions` of a live '
+                       'space re-assigned / rewritten in place (other order, arities, longer, shorter, empty) then grow / _mutate / GP.run; '
+                       'seeded scripted GP runs, half of them with converged (near-tie) fitness scripts '
                        '(non-trivial = a slot is selected / a function node is grown / an individual is overwritten)')
     ctx.count(len(cases), sum(1 for c in cases if c.get('nontrivial')))
     ctx.cov['exhaustive'] = False
     ctx.cov['coq_case_files'] = nchunks
     ctx.cov['disagreements_checked'] = sum(1 for r in res if r is False)
-    for fam in ('cross', 'mutate', 'repro', 'grow'):
+    for fam in ('cross', 'mutate', 'repro', 'grow', 'tourn'):
         for c in cases:
             if c['fam'] == fam and c.get('nontrivial'):
                 ctx.sample({'case': {k: v for k, v in c.items() if k != 'exp'}})
